@@ -1,10 +1,10 @@
 package main
 
 import (
-	"sort"
 	"fmt"
 	"go/constant"
 	"go/token"
+	"sort"
 	"strings"
 
 	"golang.org/x/tools/go/ssa"
@@ -54,6 +54,13 @@ func decidingConds(fn *ssa.Function, b *ssa.BasicBlock) []struct {
 		if r0[b] == r1[b] {
 			continue
 		}
+		// a flag that only relays an earlier decision (φ of constants, e.g. the result of an expanded helper
+		// that returns true/false from several places): when exactly one way of arriving sets the wanted value,
+		// what decided that way decides here too
+		if extra := relayedDecision(fn, ifi.Cond, r0[b], 0); extra != nil {
+			out = append(out, extra...)
+			// the relay itself stays listed (rules that look for a named flag find it); IsRelayPhi tells it apart
+		}
 		// the condition itself and, for a boolean φ built by && / || evaluated as a value, the atomic
 		// condition it implies on this outcome
 		for _, ic := range ImpliedConds(ifi.Cond, r0[b]) {
@@ -65,6 +72,83 @@ func decidingConds(fn *ssa.Function, b *ssa.BasicBlock) []struct {
 		}
 	}
 	return out
+}
+
+// relayedDecision: cond is (a negation of) a φ whose incoming values are all constants. If exactly one
+// predecessor supplies the value that makes the branch go the wanted way, the deciding conditions of that
+// predecessor are returned; nil when cond is not such a relay (or is ambiguous).
+func relayedDecision(fn *ssa.Function, cond ssa.Value, outcome bool, depth int) []struct {
+	Cond ssa.Value
+	If   *ssa.If
+	Want bool
+} {
+	if depth > 3 {
+		return nil
+	}
+	c, flip := stripNot(cond)
+	if flip {
+		outcome = !outcome
+	}
+	ph, ok := c.(*ssa.Phi)
+	if !ok {
+		return nil
+	}
+	var from []*ssa.BasicBlock
+	for i, e := range ph.Edges {
+		bv, isC := ConstBool(e)
+		if !isC {
+			return nil
+		}
+		if bv == outcome && i < len(ph.Block().Preds) {
+			from = append(from, ph.Block().Preds[i])
+		}
+	}
+	if len(from) == 0 {
+		return nil
+	}
+	out := decidingConds(fn, from[0])
+	// several ways set the wanted value: what all of them have in common decided it
+	for _, pb := range from[1:] {
+		other := decidingConds(fn, pb)
+		var keep []struct {
+			Cond ssa.Value
+			If   *ssa.If
+			Want bool
+		}
+		for _, a := range out {
+			for _, b := range other {
+				if a.Cond == b.Cond && a.Want == b.Want {
+					keep = append(keep, a)
+					break
+				}
+			}
+		}
+		out = keep
+	}
+	if out == nil {
+		out = []struct {
+			Cond ssa.Value
+			If   *ssa.If
+			Want bool
+		}{}
+	}
+	return out
+}
+
+// IsRelayPhi: v is a boolean φ of constants only — it repeats a decision taken earlier and adds no condition
+// of its own.
+func IsRelayPhi(v ssa.Value) bool {
+	c, _ := stripNot(v)
+	ph, ok := c.(*ssa.Phi)
+	if !ok || len(ph.Edges) == 0 {
+		return false
+	}
+	for _, e := range ph.Edges {
+		if _, isC := ConstBool(e); !isC {
+			return false
+		}
+	}
+	return true
 }
 
 func runC03(c *Ctx) {
